@@ -12,6 +12,7 @@ import json
 
 import z3
 
+from vp.world import raised_in_harness as _rih
 from vp import symx, util
 from vp.symx import oblige, zint
 from vp.world import SymWorld, NativeWorld, model_values
@@ -235,7 +236,7 @@ def replay(ob):
         r = C01.scenario(s, nw)
     except Exception as e:  # noqa
         import traceback
-        return {"confirmed": True, "text": "\n".join(text + [f"REAL CODE RAISED {type(e).__name__}: {e}", traceback.format_exc(limit=-3)])}
+        return {"confirmed": not _rih(e), "text": "\n".join(text + [f"REAL CODE RAISED {type(e).__name__}: {e}", traceback.format_exc(limit=-3)])}
     out, ds, da = r["out"], r["ds"], r["da"]
     want, out_dims, dfrom, dto = expected_coords(s, r)
     bad = []
